@@ -32,6 +32,10 @@ NOTES = {
               "props/c19.py transcribes a negative value as 2^300 + |v| (equal to no expected value); harness/c19 recovers from panics per case"),
     "C19_4": ("only no-failing-input-found at first run (harness crashed on the wire message without a global index)",
               "harness/c19 observes a missing global index as an empty value instead of dereferencing it"),
+    "C17_3": ("no result at first run: the changed size cut walks the block range one block at a time before looking at the size, the harness "
+              "did not return on a range of 2^63 blocks",
+              "harness/c17 runs every case under a 10 s watchdog and observes a call that does not return as the error `timeout` "
+              "(also a maximality violation on the FEP cases, as the seed intended)"),
     "C16_4": ("caught at first run by C16; MISSED by the GER-store part of C04",
               "C04 GER-store part: every query is now also asked right before each reorg"),
 }
